@@ -123,9 +123,10 @@ CLAIMS = {
         text="The six product-rewrite rules, the repeated-operand shortcuts and the mixed-product expansion are decided as polynomial "
              "identities in the components of generic real 3-vectors (so for every assignment), the permutation-sign discipline of the three "
              "products is checked (operands ordered by object identity), operand hooks are always called with (left, right) of the product "
-             "being evaluated, and every _eval_derivative equals the formal derivative for generic vector functions.",
-        note="Not decided: the multilinear expansion engine (_ordered_mul/into_terms/split_factor run SymPy's expand), termination of .diff, "
-             "id()-order independence beyond the sign rule. One defect found and repaired (Binet-Cauchy term).",
+             "being evaluated, every _eval_derivative equals the formal derivative for generic vector functions, and differentiation / "
+             "re-evaluation is well-founded (R5: irreducible vector classes are atomic or hooked; _eval_derivative recurses on strict sub-expressions only).",
+        note="Not decided: the multilinear expansion engine (_ordered_mul/into_terms/split_factor run SymPy's expand), termination inside SymPy, "
+             "id()-order independence beyond the sign rule. Four defects found and repaired (Binet-Cauchy term; three non-terminating derivative paths).",
         technique="rewrite rules read from branch conditions/returns, expanded to components, exact polynomial identity test", ref="DESIGN.md §2 C14"),
     "C15": dict(
         text="The twelve conversion tables and three Lame triples are decided mutually consistent: position maps commute with every scalar "
